@@ -145,7 +145,7 @@ func runC05(c c05Case) vh.Result {
 	obsc := make(chan peerObs, 1)
 	failc := make(chan peerObs, 1)
 	fedc := make(chan struct{})
-	script := &peer.Script{Mechs: []string{"PLAIN"}, OfferSM: c.SM == "on", SMId: "sm-c05"}
+	script := &peer.Script{Mechs: []string{"PLAIN"}, OfferSM: c.SM == "on", ExpectEnable: c.SM == "on", SMId: "sm-c05"}
 	var feed strings.Builder
 	for i, it := range c.Items {
 		feed.WriteString(c05ItemXML(it, fmt.Sprintf("s%d", i), false))
@@ -179,8 +179,8 @@ func runC05(c c05Case) vh.Result {
 			o := peerObs{}
 			out := wc.WSNegotiate(script, peer10s())
 			o.established = out.Established
+			o.note = fmt.Sprint(out.Steps)
 			if !out.Established {
-				o.note = fmt.Sprint(out.Steps)
 				failc <- o
 				return
 			}
@@ -320,6 +320,14 @@ func runC05(c c05Case) vh.Result {
 		// after a short feed that can happen although the session was established and the receive loop runs.
 		select {
 		case <-fedc:
+			if rec.count(xmpp.StateSessionEstablished) == 0 {
+				// The session was never announced: from the client's side the connection was lost during negotiation
+				// (on a loaded machine the server can answer the last request, feed and drop the connection before the
+				// client's last write has returned). The statement starts "after a session is established".
+				res.Excluded = true
+				res.Label("lost-before-the-client-was-established")
+				return res
+			}
 			res.Label("connect-error-after-establishment")
 		case <-time.After(2 * time.Second):
 			res.Fail("harness-connect", "Connect failed: %v", connectErr)
@@ -381,8 +389,8 @@ func runC05(c c05Case) vh.Result {
 		if c.Transport == "ws" && len(c.Chunks) > 0 {
 			key = "t/stanza-not-routed:ws-fragmented"
 		}
-		_, errs, _ := rec.snapshot()
-		res.Fail(key, "%s: %d of %d stanzas sent by the server were never routed (first missing %s); client errors: %v", desc, len(missing), len(wantIDs), missing[0], errs)
+		states, errs, _ := rec.snapshot()
+		res.Fail(key, "%s: %d of %d stanzas sent by the server were never routed (first missing %s); client errors: %v; Connect returned %v; states %v; negotiation seen by the server %s", desc, len(missing), len(wantIDs), missing[0], errs, connectErr, states, o.note)
 	}
 	if len(dup) > 0 {
 		res.Fail("stanza-routed-twice", "%s: stanzas routed more than once: %v", desc, dup)
